@@ -581,7 +581,7 @@ def body(ctx):
             out.append((u, rng.choice(tzs)))
         return out
 
-    nser = ctx.scale(700, 7000)
+    nser = ctx.scale(3000, 30000)
     for it in range(nser):
         maxgap = rng.choice([3600, 3600, 3601, 5400, 7200, 86400, 432000])
         big = rng.random() < 0.04
@@ -638,7 +638,7 @@ def body(ctx):
                 run_wrapper_case({**base, "kind": "wrapper", "variants": pick_variants(secs, 2)}, f"regular{freq}")
 
     # ---------------- malformed stream
-    for it in range(ctx.scale(120, 1200)):
+    for it in range(ctx.scale(300, 3000)):
         maxgap = rng.choice([3600, 86400])
         secs, skind, off = gen_secs(rng, maxgap)
         vals, vkind = gen_vals(rng, len(secs))
